@@ -13,13 +13,16 @@ LEVEL = "other"
 TECHNIQUE = "symbolic execution (zsym, z3) of bounded edit histories over the real IR classes: operand selectors and payload ints symbolic, invariant I(U) checked on every feasible path, each path's witness re-executed natively"
 
 RANGES = dict(gi=(0, 1), a=(0, 8), b=(-2, 4), c=(-1, 3), d=(0, 12))
-RANGES_K2 = dict(gi=(0, 1), a=(0, 5), b=(-1, 2), c=(-1, 1), d=(0, 12))  # two-step histories: smaller payload ranges
+RANGES_K2 = dict(gi=(0, 1), a=(0, 3), b=(-1, 1), c=(0, 1), d=(0, 3))  # two-step histories: smaller payload ranges
 
 
 RANGES_IO = dict(gi=(0, 1), a=(0, 3), b=(0, 1), c=(2, 3), d=(0, 3))   # multi-element slice/extend first, then a removal from inputs/outputs
 IO_OPS = [i for i, o in enumerate(irlib.OPS) if o in ("in.pop", "in.remove", "in.delitem", "in.clear", "out.pop", "out.remove", "out.delitem", "out.clear")]
 IO_SEEDS = [3, 4, 7]   # the seeds in which a value is listed several times / was listed before
 MULTI_OPS = [i for i, o in enumerate(irlib.OPS) if o in ("in.setslice2", "out.setslice2", "in.extend3", "out.extend3")]
+
+
+K2_STRIDE = 5
 
 
 def body_for(seed, ops_fixed, k):
@@ -90,9 +93,11 @@ def keys_for(tier):
     # values listed several times: a multi-element slice assignment / extend followed by any inputs/outputs operation
     keys += [("k2", s, o, "io") for s in IO_SEEDS for o in MULTI_OPS]
     if tier == "thorough":
+        # every first operation is paired with 2 of the 10 seeds (stride 5 over seed + operation); the second operation is
+        # symbolic inside the sub-alphabet.  (All seed x operation pairs would take ~4 h on 16 cores.)
         for s in range(irlib.N_SEEDS):
-            keys += [("k2", s, o, "coll") for o in irlib.COLLECTION_OPS]
-            keys += [("k2", s, o, "node") for o in irlib.NODE_OPS]
+            keys += [("k2", s, o, "coll") for o in irlib.COLLECTION_OPS if (s + o) % K2_STRIDE == 0]
+            keys += [("k2", s, o, "node") for o in irlib.NODE_OPS if (s + o) % K2_STRIDE == 0]
     return keys
 
 
@@ -108,7 +113,7 @@ def run(chk, tier):
         "exceptions of the documented kinds raised by a step are swallowed; the invariant is evaluated regardless",
         "every explored path is re-executed natively with the path's witness and must give the same observation (guard against proxy intolerance)",
     )
-    chk.bounds = dict(history_length="1 (every operation from every seed); 2 for a multi-element slice assignment/extend followed by any inputs/outputs operation" + ("; 2 with the second operation symbolic inside the collection / node sub-alphabet" if tier == "thorough" else ""),
+    chk.bounds = dict(history_length="1 (every operation from every seed); 2 for a multi-element slice assignment/extend followed by any inputs/outputs operation" + (f"; 2 with the second operation symbolic inside the collection / node sub-alphabet, first operation x seed pairs with (seed + operation) % {K2_STRIDE} == 0" if tier == "thorough" else ""),
                       seeds=irlib.N_SEEDS, operations=irlib.N_OPS, parameters=RANGES, parameters_two_step=RANGES_K2)
     chk.not_decided += ["histories longer than the bound; more than 2 graphs / 5 nodes / 9 values", "Function wrappers (they delegate to Graph)"]
     hist.run_cases(chk, "harness.C01", "make_case", keys_for(tier))
